@@ -354,12 +354,20 @@ TRUSTED_BASE = [
     "C++ template/overload selection is observed through behaviour, not proven",
 ]
 
-def standard_proof_steps(ctx, modules=None, targets=None):
-    """steps 2+3 for the usual layout; returns (obligations, discharged)"""
+def standard_proof_steps(ctx, modules=None, targets=None, extra_props=None):
+    """steps 2+3 for the usual layout; returns (obligations, discharged).
+    extra_props: additional Props modules of this property (e.g. ["GilVerif.Props.C07Float"]) whose theorems are
+    built, audited and counted as obligations together with those of GilVerif.Props.<prop>."""
     prop = ctx.prop
-    targets = targets or ["GilVerif.Props.%s" % prop, "drv_%s" % prop]
+    extra_props = list(extra_props or [])
+    targets = targets or (["GilVerif.Props.%s" % prop] + extra_props + ["drv_%s" % prop])
     built = build(ctx, targets)
     theorems = property_theorems(ctx)
+    for mod in extra_props:
+        theorems += property_theorems(ctx, mod.replace(".", "/") + ".lean")
+    if extra_props:
+        modules = list(modules or ["GilVerif.Props.%s" % prop]) + [m for m in extra_props if m not in (modules or [])]
+        ctx.cov["extra_props"] = extra_props
     if not built:
         # the driver may still build (it does not import Props): needed for the search
         rc, out = lake(ctx, ["build", "drv_%s" % prop])
